@@ -225,7 +225,10 @@ WORD_FREE = ["1 + 2 * 3", "(1 + 2) * 3", "8 / 4 / 2 + 1", "10 - 4 - 3", "1 / 0 +
              "20 try is %10 of what", "$5 is what % of $20", "12:30", "12:30 + 10:15", "23:59:59", "11:30 pm",
              "12/05/2021", "29/2/2020", "31/12/1999", "x = 5\nx * 2", "a = $10\nb = 3\na * b", "rate = 8%\n250 + rate",
              "total = 1.000\ntotal - 10%\ntotal / 4", "10%", "3,5", "", "   ", "# note", "1 + # note", "(", "1 +", "* 2",
-             "abc", "10 usd + 5 eur", "5 km + 300 m", "2 kg * 3", "[NUMBER:3] + [PERCENT:10]", "10 euro", "1/1/2021 - 1/1/2020"]
+             "abc", "10 usd + 5 eur", "5 km + 300 m", "2 kg * 3", "[NUMBER:3] + [PERCENT:10]", "10 euro", "1/1/2021 - 1/1/2020",
+             # every magnitude suffix of a number literal means the same under both languages
+             "5k", "5K", "5M", "5G", "5T", "5P", "5Z", "5Y", "1,5G + 1", "x = 7G\nx / 2", "2P / 4", "3T - 1", "2G + 1", "4k * 2K",
+             "1,25M", "10 usd + 2k", "$2k", "2M try"]
 
 
 def a_word_free(rng):
